@@ -279,6 +279,10 @@ def c01(tier):
             {"op": "New"}, {"op": "StartFile", "name": "f", "method": m, "level": lv, "perm": (k * 37) % 512,
                             "date": (k * 2654435761) % 65536, "time": (k * 40503) % 65536},
             {"op": "Write", "data": {"len": 2000 + k, "seed": k, "kind": "text"}}, {"op": "Finish"}]})
+    # archive comments of every alignment-critical length (see comment_lengths): written, found again, read back
+    for ln in comment_lengths(dense_to=600, dense_step=(1 if tier == "thorough" else 7)):
+        scs.append({"sc": "cl-%d" % ln, "ops": [{"op": "New"}, {"op": "StartFile", "name": "c", "method": 0}, {"op": "Write", "data": "x"},
+                                                {"op": "SetComment", "c": {"rep": "k", "n": ln}}, {"op": "Finish"}]})
     run_writer_programs(rep, wd, scs, "roundtrip")
     cmp_events = [e for e in vlib.read_ndjson(os.path.join(wd, "roundtrip-trace.ndjson")) if e.get("ev") == "Compare"]
     rep.notes["finish_vs_drop_comparisons"] = {"made": len(cmp_events), "both_completed": sum(1 for e in cmp_events if e.get("both"))}
@@ -657,6 +661,22 @@ def tail_cases(wd, quick):
     return cases
 
 
+def comment_lengths(dense_to=600, dense_step=1):
+    """comment lengths that put the end record at every alignment a block-wise backward search could mishandle: 22 + len within
+    0..4 bytes past a multiple of 2^k (k = 8..16; first, middle and last multiple that fits), plus every small length"""
+    out = set(range(0, dense_to + 1, dense_step))
+    for k in range(8, 17):
+        b = 1 << k
+        mults = [m for m in range(1, 65536 // b + 2)]
+        for m in (mults[0], mults[len(mults) // 2], mults[-1], mults[-2] if len(mults) > 1 else mults[0]):
+            for d in range(0, 5):
+                ln = m * b - 22 + d
+                if 0 <= ln <= 65535:
+                    out.add(ln)
+    out.update([65535, 65534, 65535 - 22, 65535 - 21])
+    return sorted(out)
+
+
 def producer_cases(wd, cfgname, tag):
     """realisable archives enumerated by TLC (MC_Producer with Emit)"""
     cfg = os.path.join(wd, cfgname.replace(".cfg", "_emit.cfg"))
@@ -738,6 +758,16 @@ def c03(tier):
     scs = [gen_reader.from_producer_case("q%05d" % i, A) for i, A in enumerate(pc1 + pc2)]
     rep.notes["producer_cases_materialised"] = len(scs)
     run_reader_scenarios(rep, wd, scs, "producer-model")
+    # where the end record sits: every small comment length, and lengths that put it at / just past every power-of-two
+    # alignment (the backward search must find it wherever it is), with and without prepended bytes
+    scs = []
+    for ln in comment_lengths():
+        d = {"entries": [{"name": b"c.txt", "method": 0, "data": b"comment sweep"}], "comment": bytes(0x63 + (i % 7) for i in range(ln))}
+        if ln % 3 == 0:
+            d["prefix"] = b"#" * (ln % 50)
+        scs.append(gen_reader.scenario("cl%05d" % ln, d)[0])
+    rep.notes["comment_length_cases"] = len(scs)
+    run_reader_scenarios(rep, wd, scs, "comment-lengths", neg_control=False)
     # independent producer with every per-entry freedom; CPython as a second producer
     n = 600 if tier == "quick" else 6000
     scs = []
@@ -1596,8 +1626,12 @@ def c10(tier):
     for i in range(20 if tier == "quick" else 300):
         ents = []
         for k in range(rnd.randint(1, 5)):
-            e = {"name": b"r%d-%d" % (i, k), "method": rnd.choice([0, 8, 12]), "data": gen_reader.payload(rnd), "lz64": rnd.random() < 0.3,
-                 "utf8": False, "date": rnd.randrange(65536), "time": rnd.randrange(65536), "fcomment": rnd.choice([b"", b"meta comment"]),
+            # names: ASCII; UTF-8 bytes under the flag; the SAME bytes without the flag (then they are CP437, although they would
+            # also be well-formed UTF-8); CP437 high bytes that are not UTF-8
+            nm, u8 = rnd.choice([(b"r%d-%d" % (i, k), False), (b"r%d-%d" % (i, k), False), (("é%d-%d-ü" % (i, k)).encode(), True),
+                                 (("é%d-%d-ü" % (i, k)).encode(), False), (b"\x82\xe1%d-%d" % (i, k), False)])
+            e = {"name": nm, "method": rnd.choice([0, 8, 12]), "data": gen_reader.payload(rnd), "lz64": rnd.random() < 0.3,
+                 "utf8": u8, "date": rnd.randrange(65536), "time": rnd.randrange(65536), "fcomment": rnd.choice([b"", b"meta comment"]),
                  "eattr": (rnd.choice([0o100644, 0o100755, 0o40755]) << 16)}
             c = rnd.random()
             if c < 0.12:
